@@ -1,12 +1,12 @@
 """C09 plan (see lib/plan.py for the format)."""
-from plan import R, D, M, stages
+from plan import R, D, M, T, stages
 import fuzzstage
 
 PLAN = dict(
     extra={"thorough": [fuzzstage.diff_stage(3, "C09")]},
     **stages(
-        quick=[(R, "quick", 16), (D, "small", 16)],
-        thorough=[(R, "thorough", 16), (D, "quick", 16), (M, "mini", 8)],
+        quick=[(R, "quick", 16), (D, "small", 16), (T, "small", 16)],
+        thorough=[(R, "thorough", 16), (D, "quick", 16), (T, "quick", 16), (M, "mini", 8)],
     ),
     rule=("a case is one (stream, partition) pair: the stream's bytes are written chunk by chunk into a fresh "
           "SummaryStream. Streams are the canonical texts of 1-6 generated model entries, each followed by one "
